@@ -58,6 +58,16 @@ def run(ctx):
     ls = [path_sig(p)[1] for p in nonpanic(walk(f))]
     ctx.check("C04-R2", "CloseWebTransportSession::reason", len(ls) == 1 and re.match(r"^return <String as Deref>::deref\(self\.reason\)$|^return self\.reason$", ls[0]) is not None, "reason() does not return the stored string: %s" % ls, where(f))
     shared.capsule_with_frame_table(ctx, "C04-R2")
+    # the largest admissible close capsule must fit in the largest frame the readers accept: two cooperating constants
+    def vsize(v):
+        return 1 if v < 64 else 2 if v < 16384 else 4 if v < (1 << 30) else 8
+    cap = const_int(A, "wtransport_proto::frame::Frame::MAX_PARSE_PAYLOAD_ALLOWED")
+    maxr = SPEC["capsule"]["max_reason_len"]   # the with_capsule table above pins the accepted payload length to 4..=4+max_reason_len
+    need = vsize(SPEC["capsule"]["CloseWebTransportSession"]) + vsize(SPEC["capsule"]["code_bytes"] + maxr) + SPEC["capsule"]["code_bytes"] + maxr
+    ctx.check("C04-R2", "largest close capsule fits the frame payload cap", cap >= need,
+              "a CLOSE_WEBTRANSPORT_SESSION capsule with a %d-byte reason needs a DATA payload of %d bytes but Frame::MAX_PARSE_PAYLOAD_ALLOWED is %d: "
+              "the frame reader refuses it (ExcessiveLoad) before the capsule parser sees it and the peer's code and reason are lost" % (maxr, need, cap),
+              key="close capsule fits frame cap")
 
     ctx.rule("C04-R6", "'clean FIN' is told apart from 'FIN inside a frame' at every layer below ConnectStream::run (its table maps the two to different causes)")
     from rules.C05 import eof_rules
